@@ -688,6 +688,8 @@ impl<'de, R: Read<'de>> Parser<R> {
     /// `value_iter` method may be more convenient than calling this method in a
     /// loop.
     pub fn next_value(&mut self) -> Result<Option<Value>> {
+        #[cfg(lexpr_verif)]
+        let _verif_frame = verif::Frame::enter();
         let peek = match self.parse_whitespace()? {
             Some(b) => b,
             None => return Ok(None),
@@ -767,6 +769,8 @@ impl<'de, R: Read<'de>> Parser<R> {
     /// `datum_iter` method may be more convenient than calling this method in a
     /// loop.
     pub fn next_datum(&mut self) -> Result<Option<Datum>> {
+        #[cfg(lexpr_verif)]
+        let _verif_frame = verif::Frame::enter();
         let peek = match self.parse_whitespace()? {
             Some(b) => b,
             None => return Ok(None),
@@ -1674,6 +1678,72 @@ where
 pub mod error;
 mod iter;
 pub(crate) mod read;
+
+/// Verification hooks (only with `--cfg lexpr_verif`): observation of the parser session state
+/// and of the native recursion depth of `next_value` / `next_datum`.
+#[cfg(lexpr_verif)]
+#[doc(hidden)]
+pub mod verif {
+    use std::cell::Cell;
+
+    thread_local! {
+        static DEPTH: Cell<usize> = Cell::new(0);
+        static HIGH: Cell<usize> = Cell::new(0);
+    }
+
+    /// One `next_value` / `next_datum` activation.
+    pub struct Frame;
+
+    impl Frame {
+        pub fn enter() -> Frame {
+            DEPTH.with(|d| {
+                d.set(d.get() + 1);
+                HIGH.with(|h| {
+                    if d.get() > h.get() {
+                        h.set(d.get())
+                    }
+                });
+            });
+            Frame
+        }
+    }
+
+    impl Drop for Frame {
+        fn drop(&mut self) {
+            DEPTH.with(|d| d.set(d.get() - 1));
+        }
+    }
+
+    /// Resets the high-water mark (and the depth, in case a panic unwound through frames).
+    pub fn reset() {
+        DEPTH.with(|d| d.set(0));
+        HIGH.with(|h| h.set(0));
+    }
+
+    /// Deepest nesting of parser activations since the last `reset`.
+    pub fn high_water() -> usize {
+        HIGH.with(|h| h.get())
+    }
+}
+
+#[cfg(lexpr_verif)]
+#[doc(hidden)]
+impl<'de, R: Read<'de>> Parser<R> {
+    /// Byte offset of the next byte the parser will look at.
+    pub fn verif_offset(&self) -> usize {
+        self.read.byte_offset()
+    }
+
+    /// The remaining nesting budget.
+    pub fn verif_depth_left(&self) -> u8 {
+        self.remaining_depth
+    }
+
+    /// Sets the nesting budget (to run the depth-limit logic with a small limit).
+    pub fn verif_set_depth_left(&mut self, depth: u8) {
+        self.remaining_depth = depth;
+    }
+}
 
 #[cfg(test)]
 mod tests;
